@@ -379,6 +379,20 @@ def confirm(mod, v, tries=2):
         out = eval_case(mod, v["case"])
         if out.fail:
             return True
+    if getattr(mod, "CONFIRM_FRESH_PROCESS", False):
+        # the property is about state that outlives a call: this process has already been through the failing
+        # history once, so the reproduction that counts is the one from a fresh interpreter
+        import subprocess
+
+        d = VERIF / "out" / "confirm"
+        d.mkdir(parents=True, exist_ok=True)
+        path = d / f"{mod.ID}-{case_hash(v['case'])}.json"
+        path.write_text(json.dumps({"case": v["case"]}, default=str))
+        r = subprocess.run([sys.executable, str(VERIF / "pbt" / "run.py"), mod.ID, "replay", str(path)],
+                           capture_output=True, text=True, cwd=str(VERIF))
+        path.unlink(missing_ok=True)
+        if r.returncode == 1 and "VIOLATION property=" in r.stdout:
+            return True
     return False
 
 
